@@ -74,8 +74,14 @@ Definition merge_file (now : N) (w : world) (fid : N) (txid : N) : world * bool 
                       (filter (fun pe => merge_keep now w fid (fst pe) (snd pe)) seg) in
       match pend with
       | [] =>
-          (* nothing to rewrite: the file is removed unless it is the active one *)
-          if fid =? w_maxfid w then (w, true)
+          (* nothing to rewrite: the file is removed; when it is the active one a fresh
+             active segment is started first (fix "Merge replaces an active segment that
+             holds only dead records"), so that removal records referring to positions do
+             not outlive the records of the older files *)
+          if fid =? w_maxfid w then
+            let nf := w_maxfid w + 1 in
+            (mkW (w_opts w) (w_closed w) (disk_remove (disk_create (w_disk w) nf) fid) nf 0 0
+                 (w_ix w) (w_committed w) (w_tx w), true)
           else (mkW (w_opts w) (w_closed w) (disk_remove (w_disk w) fid) (w_maxfid w) (w_woff w) (w_asize w)
                     (w_ix w) (w_committed w) (w_tx w), true)
       | _ =>
